@@ -41,6 +41,39 @@ def rlog(x):
     return r
 
 
+ORACLE_STATS = {"checked": 0, "max_rel_err": 0.0}
+
+
+def validate_oracle(tbl):
+    """every recorded libm result against 60-digit decimal arithmetic: the float handed to the implementation (and, as an
+    exact rational, to the Q model) must be within 2^-51 relative of the true exp / ln the theorems on R talk about.
+    returns a list of offending entries"""
+    import decimal
+    bad = []
+    ctx = decimal.Context(prec=60, Emax=10**6, Emin=-10**6)
+    for kind, a, r in tbl:
+        if kind not in (0, 1) or r == 0:
+            continue
+        try:
+            x = ctx.divide(decimal.Decimal(a.numerator), decimal.Decimal(a.denominator))
+            true = ctx.exp(x) if kind == 0 else ctx.ln(x)
+            got = ctx.divide(decimal.Decimal(r.numerator), decimal.Decimal(r.denominator))
+            # the exact-rational argument is rounded to a double before libm is called: allow that rounding, amplified by the
+            # function's conditioning — exp: relative error <= 2^-51 (1 + |x|); ln: absolute error <= 2^-51 (1 + |ln x|)
+            diff = abs(ctx.subtract(got, true))
+            if kind == 0:
+                err = float(ctx.divide(diff, abs(true))) / (1 + abs(float(x)))
+            else:
+                err = float(diff) / (1 + abs(float(true)))
+        except (decimal.InvalidOperation, decimal.Overflow, ZeroDivisionError):
+            continue
+        ORACLE_STATS["checked"] += 1
+        ORACLE_STATS["max_rel_err"] = max(ORACLE_STATS["max_rel_err"], err)
+        if err > 2.0 ** -51:
+            bad.append((kind, float(a), float(r), err))
+    return bad
+
+
 def install():
     from spice_ev import battery
     battery.exp = rexp
@@ -170,7 +203,9 @@ class BatUnit(corr.Unit):
             except Exception as e:  # noqa
                 res.append({"err": C.err(e), "before": before, "exc": repr(e)[:120]})
                 break
-        return {"res": res, "tbl": list(CALLS), "eps": fr(b.EPS), "uc_pts": [[fr(a), fr(b_)] for a, b_ in b.unloading_curve.points]}
+        out_ = {"res": res, "tbl": list(CALLS), "eps": fr(b.EPS), "uc_pts": [[fr(a), fr(b_)] for a, b_ in b.unloading_curve.points]}
+        out_["oracle_bad"] = validate_oracle(out_["tbl"])
+        return out_
 
     def emit(self, case, out):
         def tg(o):
@@ -354,6 +389,9 @@ def run(tier):
     def extra(rep, tier_, sd):
         float_unlimited(rep, tier_, sd)
         components_glue(rep, tier_, sd)
+        rep.notes["exp_log_oracle"] = dict(ORACLE_STATS, bound="normalised error <= 2^-51 (exp: relative/(1+|x|), ln: absolute/(1+|ln x|)), against 60-digit decimal arithmetic")
+        if ORACLE_STATS["max_rel_err"] > 2.0 ** -51:
+            rep.add_broken("exp/log oracle: a libm result is further than the normalised bound 2^-51 from the true value", ORACLE_STATS)
     return corr.standard_run("C01", tier, [UNIT], 400, 6000, TRUSTED, RULE, extra=extra)
 
 
